@@ -132,6 +132,15 @@ def stages_env(rj):
 REQUEST_TIMEOUT_S = 90
 
 
+def language_heads(rj):
+    """the string heads of `define_language! { pub enum Expr` in src/planner/mod.rs"""
+    try:
+        src = open(os.path.join(vlib.REPO, "src/planner/mod.rs")).read()
+    except OSError:
+        return []
+    return sorted(set(re.findall(r'^\s*"([^"]+)"\s*=\s*[A-Z]', src, re.M)))
+
+
 def run_harness(ck, reqs, tag, stages):
     """Runs the requests through the c01 harness binary.  The optimizer is synchronous CPU-bound
     code: a statement that does not come back (egg not terminating) cannot be cancelled from
@@ -603,6 +612,14 @@ def run(ck):
             res.update(part)
     stats = {"cases": len(cases), "runs": 0, "off_not_runnable": 0, "on_eq_off": 0, "known_rule_diffs": 0, "new_diffs": 0,
              "nonempty": 0, "features": {}, "on_fail": 0}
+    # which operators of the plan language occur in the optimized plans that were run and compared
+    # (the generator's reach, measured: a head that never occurs is named in the evidence)
+    plan_heads = {}
+
+    def count_heads(plan):
+        for h in set(re.findall(r"\(([^\s()]+)", plan or "")) | set(re.findall(r"(?<=[\s(])(inner|left_outer|right_outer|full_outer|semi|anti)(?=[\s)])", plan or "")):
+            h = h.strip('"')
+            plan_heads[h] = plan_heads.get(h, 0) + 1
     distinct = set()
     for k, c in enumerate(cases):
         for f in c.get("features", []):
@@ -615,6 +632,8 @@ def run(ck):
                 continue
             off, on, cu, cu2 = a["results"]
             stats["runs"] += 1
+            if on["class"] == "ok":
+                count_heads(on.get("optimized"))
 
             def key(x):
                 return ("fail",) if x["class"] != "ok" else c01_gen.result_key(c, x["rows"])
@@ -744,6 +763,8 @@ def run(ck):
         "rule": "(A/B) every expression-rule instantiation evaluated on the full product of small per-sort domains through SQL with the optimizer off, vs the Lean model and lhs vs rhs; (C) generated queries (joins, filters, aggregates, order/limit, subqueries) x {mem, disk} x optimizer {off, on, on-without-known-unsound-rules}; distinct_nontrivial = distinct query texts with a non-empty answer + rule instantiations compared",
         "samples": [c["sql"] for c in cases[:6]] + drv_lines[:3],
         "model_vs_impl": {"compared": n_eval, "disagree": n_mism},
+        "optimized_plan_operators": {"occurrences": dict(sorted(plan_heads.items(), key=lambda kv: -kv[1])),
+                                     "language_heads_never_in_a_compared_optimized_plan": sorted(h for h in language_heads(rj) if h not in plan_heads)},
         "impl_vs_oracle": {"rule_sides_compared": n_eval, "rule_sides_differ": n_rule_diff, "optimizer": stats},
         "single_rule_witnesses_run": n_wit,
         "rules_in_source": len(rules), "expression_rule_instantiations": len(insts),
